@@ -513,6 +513,39 @@ var specC09NoPanic = Register(&Spec[PanicCase]{
 			_, _ = marshalToText(&probeLists{})
 			_, _ = marshalToText([]probeLists{{}, {}})
 			_, _ = marshalToText([]probeLists(nil))
+		case "unsupported-kinds":
+			// kinds the encoder does not know must come back as an error, not a panic
+			type inner struct{ A string }
+			type odd struct {
+				F  float64
+				M  map[string]string
+				C  chan int
+				Fn func()
+				I  interface{}
+				In inner
+				Ar [2]string
+				PP **string
+				U8 uint8
+				I64 int64
+			}
+			s := "x"
+			ps := &s
+			for _, v := range []interface{}{odd{}, &odd{}, odd{F: 1.5, M: map[string]string{"a": "b"}, I: 3, In: inner{"q"}, Ar: [2]string{"a", "b"}, PP: &ps, U8: 7, I64: -9},
+				[]odd{{}, {F: 2}}, 42, "str", nil, &s, []string{"a"}, map[string]string{}} {
+				func() {
+					defer func() {
+						if p := recover(); p != nil && v != nil {
+							panic(p)
+						}
+					}()
+					_, _ = marshalToText(v)
+				}()
+			}
+			var y odd
+			_ = control.Unmarshal(&y, strings.NewReader("F: 1.5\nM: x\nC: 1\nFn: x\nI: 3\nA: q\nAr: a b\nPP: x\nU8: 7\nI64: -9\n"))
+			var z int
+			_ = control.Unmarshal(&z, strings.NewReader("A: b\n"))
+			_ = control.Unmarshal(y, strings.NewReader("A: b\n"))
 		case "zero-pointers":
 			_, _ = marshalToText(probePointers{})
 			_, _ = control.ConvertToParagraph(&probePointers{})
@@ -572,7 +605,7 @@ var specC09NoPanic = Register(&Spec[PanicCase]{
 
 func TestC09_NoPanicExh(t *testing.T) {
 	specC09NoPanic.Enumerate(t, true, func(_ *Recorder, yield func(PanicCase) bool) {
-		for _, k := range []string{"zero-scalars", "zero-lists", "zero-pointers"} {
+		for _, k := range []string{"zero-scalars", "zero-lists", "zero-pointers", "unsupported-kinds"} {
 			if !yield(PanicCase{Kind: k}) {
 				return
 			}
